@@ -63,6 +63,11 @@ def gen_provisions(rng, W, ind, depth, out, provs, used_nums):
             if rng.random() < 0.7:
                 out.append('  ' * (ind + 1) + W.words(1, 3) + ' {{FOOTNOTE %s}}' % m)
             out.append('  ' * (ind + 1) + 'FOOTNOTE ' + m); out.append('  ' * (ind + 2) + W.words(1, 3))
+        elif r < 0.79:
+            # the same BLOCK constructs over and over, from a small pool that the preface draws from too: the first long title / table /
+            # list of a document is nothing special, neither is the second
+            for l in rng.choice(BLOCK_POOL).split('\n'):
+                out.append('  ' * (ind + 1) + l)
         else:
             # a block that really is a child of this provision: first line at the child's indentation,
             # and none of the constructs that carry document-wide state
@@ -75,10 +80,16 @@ def gen_provisions(rng, W, ind, depth, out, provs, used_nums):
                     out.extend(tmp); break
     p.end = len(out)
 
+BLOCK_POOL = ['LONGTITLE To provide for the keeping of bees', 'LONGTITLE To provide for the keeping of bees', 'LONGTITLE another long title', 'CROSSHEADING Same heading', 'P.x the same paragraph',
+              'ITEMS\n  ITEM (a)\n    same item', 'BULLETS\n  * same bullet', 'TABLE\n  TR\n    TC\n      same cell', 'BLOCKS\n  same block', 'the same plain paragraph']
+
 def gen_case(rng):
     W = gen.Words(rng, False)
     out, provs = [], []
-    if rng.random() < 0.3: out.append('PREFACE'); out.append('  ' + W.words())
+    if rng.random() < 0.3:
+        out.append('PREFACE'); out.append('  ' + W.words())
+        for _ in range(rng.randint(0, 2)):
+            for l in rng.choice(BLOCK_POOL).split('\n'): out.append('  ' + l)
     if rng.random() < 0.5: out.append('BODY')
     used = set()
     for _ in range(rng.randint(1, 3)):
